@@ -35,6 +35,11 @@ GraphCheck(c) ==
      ELSE /\ (Agrees(c.obs.local, st) \/ PrintT(<<"MISMATCH", c.id, "local", Kind(c.obs.local), ToJson(Summary(st))>>))
           /\ (Agrees(c.obs.fs, st) \/ PrintT(<<"MISMATCH", c.id, "fs", Kind(c.obs.fs), ToJson(Summary(st))>>))
           /\ (Agrees(c.obs.again, st2) \/ PrintT(<<"MISMATCH", c.id, "again", Kind(c.obs.again), ToJson(Summary(st2))>>))
+          \* no importer configured (working directory inside the module tree): as if no module file existed
+          /\ LET none == [w EXCEPT !.mods = [k \in 1..Len(c.mods) |-> [c.mods[k] EXCEPT !.present = FALSE]]]
+                 stn == Run(none)
+             IN stn.status = "unknown" \/ AgreesBut(c.obs.noimp, stn, FALSE)
+                \/ PrintT(<<"MISMATCH", c.id, "noimp", Kind(c.obs.noimp), ToJson(Summary(stn))>>)
           \* the main program fed statement by statement to one compiler and one VM (REPL): the same final state
           /\ (Agrees(c.obs.repl, st) \/ PrintT(<<"MISMATCH", c.id, "repl", Kind(c.obs.repl), ToJson(Summary(st))>>))
 
